@@ -1,0 +1,13 @@
+//go:build verif
+
+// Contracts for package parser, read by the verification engine in /verif
+// (comment-only; compiled only under the "verif" build tag).
+
+package parser
+
+//@ props C01 C19
+
+//@ wf elems
+//@ default opaque
+
+//@ panicclass bailout value == errBailout
